@@ -230,6 +230,13 @@ def check_shadow(case, ev):
         R = call(pnd.ndint_compress, X, method="shadow", axis=axis, what="puan.ndarray.ndint_compress(shadow)")
     else:
         R = call(X.ndint_compress, method="shadow", axis=axis, what="ndint_compress(shadow)")
+    # compressing must not change its input, and compressing the same array object again must give the same weights
+    if np.asarray(X).tolist() != a:
+        raise Violation(f"ndint_compress(shadow) changed its input array: {np.asarray(X).tolist()} vs {a}")
+    R2 = call(X.ndint_compress, method="shadow", axis=axis, what="ndint_compress(shadow), second call")
+    if np.asarray(R2).tolist() != np.asarray(R).tolist():
+        raise Violation(f"ndint_compress(shadow) gives {np.asarray(R2).tolist()} when called again on the same array, first "
+                        f"{np.asarray(R).tolist()}; input {a}")
     if nd == 3:
         W = _as_ints(np, R, (len(a), n_out), "shadow on 3-D batch", case)
         for i, (ks, w) in enumerate(zip(all_ks, W)):
